@@ -232,9 +232,15 @@ class BuildDirector(SectionLineParser):
             if (molecule.mol_name, mol_idx)  in self.all_rw_options:
                 for option in self.all_rw_options[(molecule.mol_name, mol_idx)]:
                     self._tag_nodes(molecule, "rw_options", option, molecule.mol_name)
-            molecule.templates = self.templates
 
         super().finalize(lineno=lineno)
+
+        # templates of build files that were read before are kept; a
+        # template that is defined again replaces the earlier definition
+        for molecule in self.molecules:
+            templates = dict(getattr(molecule, "templates", {}))
+            templates.update(self.templates)
+            molecule.templates = templates
 
         # if template graphs and volumes are provided
         # make sure that volumes are indexed by the hash
